@@ -193,7 +193,7 @@ class CompositeSheetReader:
 
 
 def load_csv(path):
-    with open(path, mode="r", encoding="utf-8") as csv:
+    with open(path, mode="r", encoding="utf-8", newline="") as csv:
         return tablib.import_set(csv, format="csv")
 
 
